@@ -124,7 +124,8 @@ def run(ck, a):
         goals.append(z3.Or(z3.And([E(xr2[i, c], gr[c]) for c in range(4)]), z3.And([E(xr2[i, c], core.s_neg(gr[c])) for c in range(4)])))
         gv, ga = kin.qrot(list(xv1[i]), R), kin.qrot(list(xa1[i]), R)
         goals += [E(xv2[i, c], gv[c]) for c in range(3)] + [E(xa2[i, c], ga[c]) for c in range(3)]
-        ck.add(Ob('rigid-transform/%s/link%d' % (tag, i), side, z3.And(goals), timeout=120 if pname != 'positional' else 30, core=(pname != 'positional'), meta={'tag': tag}))
+        ck.add(Ob('rigid-transform/%s/link%d' % (tag, i), side, z3.And(goals), timeout=120 if pname != 'positional' else 30, core=(pname != 'positional'),
+                  meta={'tag': tag, 'extended_witness': tag if pname == 'positional' else None}))
       goals = [E(q2[k], q1[k]) for k in range(7, len(q))] + [E(qd2[k], qd1[k]) for k in range(6, len(qd))] + [E(qd2[k], qd1[k]) for k in range(3, 6)]
       cong = [fr.formula(c_) for c_ in ctx.congruence()]
       ck.add(Ob('rigid-transform/%s/non-root joint coordinates unchanged' % tag, side + cong, z3.And(goals) if goals else True, timeout=40, core=False, kind='lemma', meta={'tag': tag}))
@@ -172,7 +173,7 @@ def run(ck, a):
     s1, s2 = mjcf.loads(xml1), mjcf.loads(xml2)
     ex1, ex2 = models.exact_params(spec), models.exact_params(spec2)
     keys = sorted(ex1)
-    for pname, mod in pipes[:1] if not thorough else pipes:
+    for pname, mod in pipes[:2] if not thorough else pipes:
       ctx = core.Ctx(fold=False)
       ctx.pair_cos_min = F(27, 50)
       ctx.lemma_timeout = 150
@@ -216,6 +217,18 @@ def run(ck, a):
       for new, old in enumerate(order):
         goals = [E(o2[0][new, c], o1[0][old, c]) for c in range(3)] + [E(o2[2][new, c], o1[2][old, c]) for c in range(3)] + [E(o2[3][new, c], o1[3][old, c]) for c in range(3)]
         goals.append(z3.Or(z3.And([E(o2[1][new, c], o1[1][old, c]) for c in range(4)]), z3.And([E(o2[1][new, c], core.s_neg(o1[1][old, c])) for c in range(4)])))
+        if pname == 'positional':
+          # positional: decided on the additive skeleton (large non-linear chunks -> fresh variables; unsat of the generalisation is sound).  The links
+          # below the torso compute structurally identical chunks in both documents; the torso SUMS its children's corrections in document order and its
+          # skeleton query is beyond nlsat -> extended, backed by the concrete witness search on the real code
+          from sx.abstract import Abstractor
+          ab = Abstractor(keep=30)
+          raw = [lift(o2[0][new, c]) == lift(o1[0][old, c]) for c in range(3)] + [lift(o2[2][new, c]) == lift(o1[2][old, c]) for c in range(3)] + [lift(o2[3][new, c]) == lift(o1[3][old, c]) for c in range(3)]
+          raw += [lift(o2[1][new, c]) == lift(o1[1][old, c]) for c in range(4)]
+          torso = bodies[old]['parent'] == -1
+          ck.add(Ob('sibling-order/%s/link%d' % (tag, old), [], z3.And([ab.formula(x) for x in raw]), timeout=40 if torso else 90, core=not torso,
+                    meta={'tag': tag, 'xml2': xml2, 'order': list(order), 'abstract': True, 'extended_witness': tag if torso else None}))
+          continue
         ck.add(Ob('sibling-order/%s/link%d' % (tag, old), side, z3.And(goals), timeout=120, meta={'tag': tag, 'xml2': xml2, 'order': list(order)}))
 
   # ---- disconnected components evolve as each would alone
